@@ -40,7 +40,37 @@ def _is_library_exception(tb_exc):
     return fn.startswith(repo)
 
 
+class CaseTimeout(BaseException):
+    pass
+
+
+def _alarm(signum, frame):
+    raise CaseTimeout()
+
+
+CASE_TIMEOUT = int(os.environ.get("VERIF_CASE_TIMEOUT", "240"))
+
+
 def _work(arg):
+    import signal
+    try:
+        signal.signal(signal.SIGALRM, _alarm)
+        signal.alarm(CASE_TIMEOUT)
+    except Exception:
+        pass
+    try:
+        return _work_inner(arg)
+    except CaseTimeout:
+        return arg[1], {"v": [{"kind": "no_answer_within_timeout", "msg": f"the library did not return within {CASE_TIMEOUT}s on this case (normal cases take seconds): hang / non-termination"}],
+                        "nt": None, "tags": [], "out": "timeout"}, None
+    finally:
+        try:
+            signal.alarm(0)
+        except Exception:
+            pass
+
+
+def _work_inner(arg):
     modname, case = arg
     try:
         common.bind()
@@ -57,6 +87,8 @@ def _work(arg):
             elif isinstance(tg, list):
                 tg.extend(["highs_presolve_rescue"] * _drv.RESCUE_COUNT)
         return case, res, None
+    except CaseTimeout:
+        raise
     except SystemExit as e:
         return case, {"v": [{"kind": "system_exit", "msg": f"SystemExit({e.code}) escaped from the library"}],
                       "nt": None, "tags": [], "out": "system_exit"}, None
